@@ -16,6 +16,7 @@ from data_algebra.data_ops import (
 from data_algebra.view_representations import (
     ViewRepresentation,
     TableDescription,
+    SQLNode,
 )  # for globals() in eval_da_ops()
 
 pd = data_algebra.data_model.default_data_model().pd  # for globals() in eval_da_ops()
